@@ -82,7 +82,11 @@ fn check_rules(rule_texts: &[&str], a: &mut Acc) {
         let same_phase = fails.iter().all(|x| single[*x].1 == single[fails[0]].1);
         let first = if let Some(p) = [i, j].into_iter().find(|x| single[*x].1 == 1) { p } else { fails[0] };
         let want = single[first].0.clone().unwrap_err();
-        for (which, list) in [("alone", vec![line.clone()]), ("after-a-good-line", vec!["pa".to_string(), line.clone()])] {
+        // a line that succeeds under these rules (if any) in front of it
+        let good: Option<String> = (0..n).find(|x| single[*x].1 == 0).map(|x| WORD_POOL[x].to_string());
+        let mut lists = vec![("alone", vec![line.clone()])];
+        if let Some(g) = good { lists.push(("after-a-good-line", vec![g, line.clone()])); }
+        for (which, list) in lists {
             match run(&rules, &list) {
                 Out::Ok(Err(e)) if !same_phase || e == want => a.errs += 1,
                 Out::Ok(x) => a.viols.push(Viol { key: format!("failing-line|{}|{}|{}", rule_texts.join(" ;; "), line, which), desc: format!("run([{}], {:?}) = {:?}, expected the error of the first failing word `{}`: {}", rule_texts.join(" ;; "), list, x, WORD_POOL[first], want), case: json!({"kind": "failing-line", "rules": rule_texts, "line": line, "which": which}) }),
